@@ -501,6 +501,14 @@ class BaseCurve(Intface_BaseCurve):
         if newknotvector == self.knotvector:
             return
         if self.ctrlpoints is None:
+            if self.weights is not None:  # The weights follow the knotvector
+                if self.knotvector.limits != newknotvector.limits:
+                    raise ValueError
+                denominator = self.__class__(self.knotvector, self.weights)
+                denominator.update(newknotvector, tolerance, nodes)
+                temp_curve = self.__class__(newknotvector)
+                temp_curve.weights = denominator.ctrlpoints
+                self.__weights = temp_curve.weights
             self.__knotvector = newknotvector
             return
         if self.knotvector.limits != newknotvector.limits:
